@@ -1001,3 +1001,21 @@ m('K8-broadcast-rejects-a-treespec-at-the-limit', 'C16', 'K8', 'BroadcastToCommo
   """    const ssize_t& other_pos,
     const ssize_t& depth) {
     if (depth >= MAX_RECURSION_DEPTH) [[unlikely]] {""")
+m('F14-broadcast-prefix-treats-none-as-leaf-by-default', 'C09', 'F14', 'ops.broadcast_prefix/none_is_leaf', 'optree/ops.py',
+  """    /,
+    is_leaf: Callable[[T], bool] | None = None,
+    *,
+    none_is_leaf: bool = False,
+    namespace: str = '',
+) -> list[T]:
+    \"\"\"Return a list of broadcasted leaves""",
+  """    /,
+    is_leaf: Callable[[T], bool] | None = None,
+    *,
+    none_is_leaf: bool = True,
+    namespace: str = '',
+) -> list[T]:
+    \"\"\"Return a list of broadcasted leaves""")
+m('F6-transpose-rejects-the-non-empty-outer', 'C10', 'F6', 'tree_transpose/non-empty', 'optree/ops.py',
+  """    if outer_size == 0 or inner_size == 0:""",
+  """    if outer_size != 0 or inner_size == 0:""")
